@@ -5,7 +5,10 @@ use super::queue_state::*;
 use super::wake_thread::*;
 
 use std::fmt;
+#[cfg(not(feature = "verif-hooks"))]
 use std::sync::*;
+#[cfg(feature = "verif-hooks")]
+use crate::verif::sync::*;
 use std::thread;
 use std::collections::vec_deque::*;
 
@@ -113,6 +116,8 @@ impl JobQueue {
                 match poll_result {
                     Poll::Ready(()) => { },
                     Poll::Pending   => { 
+                        #[cfg(feature = "verif-hooks")]
+                        crate::verif::point_here();
                         // Job needs requeuing
                         self.requeue(job);
 
@@ -196,7 +201,11 @@ impl JobQueue {
                                 }
 
                                 // Park until we're awoken from the other thread (once awoken, we re-check the state)
+                                #[cfg(feature = "verif-hooks")]
+                                crate::verif::point_kind_here(crate::verif::PointKind::BeforePark);
                                 thread::park();
+                                #[cfg(feature = "verif-hooks")]
+                                crate::verif::point_kind_here(crate::verif::PointKind::AfterPark);
                             }
                         }
                     }
